@@ -350,6 +350,22 @@ def run(check: Check) -> None:
         for mode in (modes if thorough else ["extend", "clip", "zero"]):
             _crs_case(check, cc, True, kn, mode, tmo)
     train = [0.0, 0.3, 1.0, 1.0, 2.2, 3.5, 4.0, 5.5, 6.0]
+    # df-derived knots (no constraint): df columns, as many recorded knots as the basis needs, inside the data range and sorted;
+    # then the symbolic comparison with the interpolating-spline reference ON THOSE KNOTS
+    for cyclic, df in ((False, 3), (False, 4), (True, 3), (True, 4)) + (((False, 5), (True, 2)) if thorough else ()):
+        fnc = cc if cyclic else cr
+        st: dict = {}
+        out = fnc(numpy.array(train), df=df, _state=st)
+        kn = [float(k) for k in st.get("knots", [])]
+        ok = len(out) == df and len(kn) == (df + 1 if cyclic else df) and kn == sorted(kn) and kn[0] >= min(train) and kn[-1] <= max(train) and len(set(kn)) == len(kn)
+        check.case(f"crs df-derived cyclic={cyclic} df={df}")
+        check.obligation("crs.df/ground", "ground" if ok else "refuted")
+        if not ok:
+            p = {"kind": "c12_crs_df", "cyclic": cyclic, "train": train, "df": df}
+            check.violation(f"crs_df(cyclic={cyclic},df={df})", f"{'cc' if cyclic else 'cr'}(df={df}) gave {len(out)} columns on recorded knots {kn}", p)
+            continue
+        for mode in ("extend", "clip"):
+            _crs_case(check, fnc, cyclic, kn, mode, tmo)
     for cyclic, df in ((False, 3), (False, 4), (True, 3)):
         _crs_center(check, cc if cyclic else cr, cyclic, train, df, tmo)
     # centering when some TRAINING values lie outside explicit bounds, under every extrapolation mode (ground)
